@@ -59,6 +59,7 @@ def run(ctx, only_type_id=False):
     if only_type_id:
         return
     header_tables(ctx)
+    summary_new(ctx)
 
     R = "SIZE-1"
     ctx.rule(R, "for each fixed-size variant, the bytes emitted by its write arm on every success path equal its size_including_padding entry and are a "
@@ -264,6 +265,16 @@ def summary_ids(ctx, rule="PROP-ID"):
     pr = [args for b, n, args, t in symcalls(prog, r, S) if n.endswith("PropertyValue::read")]
     ok = len(pr) == 2 and "Default>::default" in pr[0][1] and "Default>::default" not in pr[1][1]
     ctx.check(ok, R, "read uses the parsed code page", "", "PropertySet::read decodes values with %s" % [a[1][:60] for a in pr], r.loc(), fn=r.name)
+
+
+def summary_new(ctx, rule="CP-THREAD"):
+    """a fresh summary states its code page"""
+    prog = ctx.prog
+    f = prog.fn("msi::internal::summary::SummaryInfo::new")
+    cs = [(b, n) for b, n, a, t in symcalls(prog, f) if n.endswith("::set_codepage")]
+    dom = cfg.dominators(f)
+    ctx.check(bool(cs) and all(cs[0][0] in dom[r] for r in f.returns()), rule, "SummaryInfo::new stores the code page property", "", "SummaryInfo::new does not call set_codepage on every path: "
+              "a created package's summary has no code page property and other readers decode its strings with their default", f.loc(), fn=f.name, key=rule + "|new")
 
 
 def header_tables(ctx, rule="HDR-TAB"):
